@@ -51,11 +51,68 @@ def explore(ctx, tier, search=False):
                 ctx.oracle_fail("reads through a caching session differ from reads through a plain session", case,
                                 hr.reads[:6], reads["plain"][:6], size=100 * len(ops) + len(repr(ops)))
     ctx.correspond("session of every GET (model log vs URLs handed to the session)", cases)
+    autosession_pass(ctx)
     c18_cachekey.explore(ctx, "thorough" if search else tier)
     c18_cachehist.explore(ctx, "thorough" if search else tier)
     c18_consolidate.explore(ctx, "thorough" if search else tier)
     c18_sessions.explore(ctx, "thorough" if search else tier)
     c18_transport.explore(ctx, "thorough" if search else tier)
+
+
+def autosession_pass(ctx):
+    """a dataset opened WITHOUT `session=`: open_url builds the session itself (from session_kwargs / use_cache).  Every
+    later request made on behalf of the dataset — variables, derived sequences, server-function results — must be sent
+    by that one session object (and carry its credentials), never by a fresh anonymous one.  Oracle only."""
+    import requests
+    import warnings
+    import numpy as np
+    from pydap.client import open_url
+    from pydap.handlers.lib import BaseHandler
+    from pydap.wsgi.ssf import ServerSideFunctions
+
+    cs.block_network()
+    app = ServerSideFunctions(BaseHandler(cs.make_dataset()))
+    adapter = cs.WSGIAdapter(app, [])
+    sent = []
+    orig = requests.Session.send
+
+    def send(self, request, **kw):
+        sent.append((id(self), request.url, request.headers.get("Authorization")))
+        return adapter.send(request, **kw)
+    requests.Session.send = send
+    try:
+        for variant, kw in (("token", {"session_kwargs": {"token": "sesame"}}),
+                            ("cache", {"use_cache": True, "cache_kwargs": {"cache_name": "c18_auto", "backend": "memory"}}),
+                            ("default", {})):
+            del sent[:]
+            case = {"kind": "autosession", "variant": variant}
+            try:
+                with warnings.catch_warnings():
+                    warnings.simplefilter("ignore")
+                    ds = open_url("http://dap.test/ds", protocol="dap2", **kw)
+                    np.asarray(ds["a"][0].data)
+                    list(ds["s"]["i"])
+                    list(ds["s"][ds["s"]["i"] > 2].iterdata())
+                    try:
+                        res = ds.functions.mean(ds["a"], 0)
+                        res["a"]
+                    except AttributeError:
+                        pass
+            except Exception as e:
+                ctx.oracle_fail("a dataset opened without session= could not be read", case, "%s: %s" % (type(e).__name__, e),
+                                "reads through the session open_url created", size=10)
+                continue
+            own = id(ds.session)
+            foreign = [(u, a) for (i, u, a) in sent if i != own]
+            noauth = [u for (i, u, a) in sent if variant == "token" and a != "Bearer sesame"]
+            if foreign or noauth or not sent:
+                ctx.oracle_fail("a request on behalf of a dataset opened without session= was not sent by the session open_url "
+                                "created for it (or without its credentials)", case,
+                                {"other-session": foreign[:3], "without-token": noauth[:3], "requests": len(sent)},
+                                "every request sent by dataset.session", size=10)
+            ctx.count(("autosession", variant), True, tag="autosession:%s:requests=%d" % (variant, min(len(sent), 9)))
+    finally:
+        requests.Session.send = orig
 
 
 def run(ctx):
@@ -95,6 +152,13 @@ def replay(payload):
         print("nothing to replay: %s" % payload.get("no_longer_checks"))
         return False
     c = f["case"]
+    if c.get("kind") == "autosession":
+        ctx = common.Ctx("C18", "quick", 0)
+        ctx.findings = []
+        autosession_pass(ctx)
+        for fl in ctx.oracle_failures[:3]:
+            print(fl["what"], "observed", fl["observed"])
+        return not ctx.oracle_failures
     if "transport" in c:
         return c18_transport.replay_case(c)
     if "history" in c:
